@@ -6,6 +6,8 @@ patch=$(readlink -f "$1"); prop=$2; tier=${3:-quick}
 wt=/tmp/elfmut.$$
 git -C /repo worktree add -q --detach "$wt" HEAD || exit 2
 if ! git -C "$wt" apply "$patch"; then echo "PATCH-FAILED"; git -C /repo worktree remove --force "$wt"; exit 2; fi
+suite=$(cd "$wt" && cargo test --offline 2>&1 | grep "test result" | head -1 | sed 's/finished.*//')
+echo "MUTANT-SUITE $(basename $patch): $suite"
 VERIF_REPO="$wt" /verif/check "$prop" "$tier"; rc=$?
 echo "MUTANT-RESULT patch=$(basename $patch) prop=$prop exit=$rc"
 git -C /repo worktree remove --force "$wt"
